@@ -48,6 +48,9 @@ class Outcome:
         self.failures = failures        # further failures of a batched case
 
 
+STOP_ON_FIRST = bool(os.environ.get("VERIF_STOP_ON_FIRST"))
+
+
 def h64(obj):
     if not isinstance(obj, (bytes, str)):
         obj = json.dumps(obj, sort_keys=True, default=repr)
@@ -259,11 +262,20 @@ class Runner:
             return
         if chunksize is None:
             chunksize = max(1, min(200, len(cases) // (NWORKERS * 4) or 1))
+        if STOP_ON_FIRST and self.stats.failures:
+            return
         jobs = [("enum", c) for c in chunk(cases, chunksize)]
-        for st in self.get_pool().imap_unordered(_run_cases_job, jobs):
-            self.stats.merge(st)
+        # (sensitivity runs only: VERIF_STOP_ON_FIRST=1 ends the exploration at the first failure; it is then confirmed and
+        # reported as usual.  Registered commands never set it.)
+        for k in range(0, len(jobs), NWORKERS * 8 if STOP_ON_FIRST else len(jobs)):
+            for st in self.get_pool().imap_unordered(_run_cases_job, jobs[k:k + (NWORKERS * 8 if STOP_ON_FIRST else len(jobs))]):
+                self.stats.merge(st)
+            if STOP_ON_FIRST and self.stats.failures:
+                return
 
     def run_hypothesis(self, n_total):
+        if STOP_ON_FIRST and self.stats.failures:
+            return
         per = max(1, n_total // NWORKERS)
         for st in self.get_pool().imap_unordered(_run_hyp_job, [(w, per) for w in range(NWORKERS)]):
             self.stats.merge(st)
